@@ -59,10 +59,10 @@
             forall|a: (), b: ()| #[trigger] a.eq_spec(&b);
 
     /// A2: an allocation is at most isize::MAX bytes and a `(Range<u32>, T)` entry takes at least 8, so a
-    /// vector of entries has at most isize::MAX / 8 elements (used only for the `a.len() + b.len()`
-    /// capacity hint of `merge`).
+    /// vector of entries has at most usize::MAX / 8 elements on every target (used for the
+    /// `a.len() + b.len()` capacity hint of `merge` and `(left + right) / 2` of `find_start`).
     pub axiom fn axiom_vec_len_bound<T>(v: &Vec<(Range<u32>, T)>)
         ensures
-            v@.len() <= 0x0fff_ffff_ffff_ffff;
+            v@.len() <= usize::MAX / 8;
 
     pub broadcast group vx_clone_axioms { axiom_clone_merge, axiom_clone_entry, axiom_range_u32_is_empty }
